@@ -386,8 +386,10 @@ def check_main(pid, tier, seed, nruns=None, jobs=None, quiet=False):
         return 1 if vio_lines else (2 if (agg["harness_errors"] or harness_fail or agg["runs"] == 0) else 0)
     # ---- evidence
     ev = build_evidence(prop, pid, tier, seed, nruns, agg, wall, len(vio_lines), hs_sorted, jobs)
-    os.makedirs(os.path.join(VERIF, "evidence"), exist_ok=True)
-    json.dump(ev, open(os.path.join(VERIF, "evidence", "%s.json" % pid), "w"), indent=1, sort_keys=True)
+    # (tools that run the checks against a deliberately broken /repo redirect the evidence to a scratch directory)
+    evdir = os.environ.get("VERIF_EVIDENCE_DIR") or os.path.join(VERIF, "evidence")
+    os.makedirs(evdir, exist_ok=True)
+    json.dump(ev, open(os.path.join(evdir, "%s.json" % pid), "w"), indent=1, sort_keys=True)
     # ---- report
     if not quiet:
         print("%s %s seed=%d runs=%d steps=%d distinct_states=%d wall=%.1fs (%.0f runs/h)" % (
